@@ -617,6 +617,19 @@ func (c *Client) delete(id transactionID) bool {
 	return found
 }
 
+// take unregisters transaction and returns it. The second result is false if
+// the transaction is not registered, i.e. it is already completed.
+func (c *Client) take(id transactionID) (*clientTransaction, bool) {
+	c.mux.Lock()
+	t, found := c.t[id]
+	if found {
+		delete(c.t, id)
+	}
+	c.mux.Unlock()
+
+	return t, found
+}
+
 type buffer struct {
 	buf []byte
 }
@@ -672,19 +685,23 @@ func (c *Client) handleAgentCallback(event Event) { //nolint:cyclop
 
 		return
 	}
+	// The transaction is registered again: from now on it can be completed and
+	// returned to the pool by concurrent response or close, so it must be
+	// looked up again instead of using the transaction pointer.
 	// Starting agent transaction.
 	if startErr := c.a.Start(id, timeOut); startErr != nil {
-		c.delete(id)
-		event.Error = startErr
-		transaction.handle(event)
-		putClientTransaction(transaction)
+		if t, ok := c.take(id); ok {
+			event.Error = startErr
+			t.handle(event)
+			putClientTransaction(t)
+		}
 
 		return
 	}
 	// Writing message to connection again.
 	_, writeErr := c.c.Write(buff.buf)
 	if writeErr != nil {
-		c.delete(id)
+		t, ok := c.take(id)
 		event.Error = writeErr
 		// Stopping agent transaction instead of waiting until it's deadline.
 		// This will call handleAgentCallback with "ErrTransactionStopped" error
@@ -696,8 +713,10 @@ func (c *Client) handleAgentCallback(event Event) { //nolint:cyclop
 				Cause: writeErr,
 			}
 		}
-		transaction.handle(event)
-		putClientTransaction(transaction)
+		if ok {
+			t.handle(event)
+			putClientTransaction(t)
+		}
 
 		return
 	}
